@@ -15,7 +15,15 @@ makes the schedules as adversarial as it can:
     (backend constructor, next, create_trial, done, skip, _add_measurement,
     _complete_trial, propose, feedback);
   * the search algorithm is wrapped by a probe whose propose/feedback also
-    yield, and which records every feedback it receives;
+    yield, which records every feedback it receives, whose proposal/feedback
+    counters are read and written through yielding properties (widening the
+    window of `self._num_x += 1`), and which checks, at the moment a new
+    trial is being created for a group, that no earlier trial of that group
+    is still pending; one algorithm is an Evolution that keeps its whole
+    population and whose population update takes 4 ms, so that a feedback
+    whose effect is lost is visible;
+  * optionally all workers finish their trials at the same moment (soft
+    rendezvous), with rewards that improve with every trial;
   * all mixes of done / multi-measurement done / skip / policy driven early
     stop / worker break / end_loop, solo groups (None, str, int), co-worker
     groups (single finisher and racing finishers), shared and per-worker
@@ -32,6 +40,7 @@ import os
 import sys
 import threading
 import time
+import traceback
 
 import pyglove as pg
 from pyglove.ext import evolution as ev
@@ -189,7 +198,7 @@ _ALGOS = {
     # lost shows up as a missing member of the population.
     'evo-keep-all': ("ev.Evolution(ev.selectors.Random(1, seed={seed}) >> ev.mutators.Uniform(seed={seed}), "
                      "population_init=(pg.geno.Random(seed={seed}), 2), "
-                     "population_update=ev.selectors.Last(1000) >> ev.Lambda(slow))"),
+                     "population_update=ev.Lambda(slow) >> ev.selectors.Last(1000) >> ev.Lambda(slow))"),
     'dedup-auto': ("pg.geno.Deduping(ev.hill_climb(ev.mutators.Uniform(seed={seed}), batch_size=2, "
                    "init_population_size=2, seed={seed}), "
                    "hash_fn=lambda d: hash(tuple(d.to_numbers())), "
@@ -200,7 +209,7 @@ _ALGOS = {
 def _slow_identity(dna_list):
   """Population update step that takes a while (inside Evolution's lock)."""
   if getattr(_tls, 'worker', False):
-    time.sleep(2e-4)
+    time.sleep(2e-3)
   return dna_list
 
 
@@ -426,7 +435,9 @@ def _worker(cfg, widx, group, leader, algo, space, name, log, evs, start_evt, fi
         break
     evs.append((next(tick), 'exit', None, None))
   except BaseException as e:  # pylint: disable=broad-except
-    log.errors.append((widx, f'{type(e).__name__}: {e}'))
+    tb = traceback.extract_tb(e.__traceback__)
+    where = ' <- '.join(f'{os.path.basename(f.filename)}:{f.lineno}:{f.name}' for f in tb[-4:])
+    log.errors.append((widx, f'{type(e).__name__}: {e} [{where}]'))
   finally:
     sys.settrace(None)
     _tls.rng = None
@@ -512,7 +523,11 @@ def check_run(obs):
 
   put('liveness.all-workers-terminate', not obs['hung'],
       f'workers {obs["hung"]} still running after 30 s')
-  put('worker.no-unexpected-exception', not log.errors, f'worker errors: {log.errors[:3]}')
+  # (Known on the unchanged tree, about 1 run in 900 with racing co-workers:
+  # building the RaceConditionError message formats the trial while the
+  # co-worker's feedback updates the DNA metadata -> RuntimeError.)
+  put(f'worker.no-unexpected-exception/{scen}', not log.errors,
+      f'worker errors: {log.errors[:3]}')
   result = obs['result']
   if obs['hung'] or log.errors or result is None:
     if result is None and not obs['hung'] and not log.errors:
@@ -773,7 +788,7 @@ def _scenarios(tier, seed):
         yield cfg, (1 if quick else 2)
 
 
-_QUICK_STRIDE = 9
+_QUICK_STRIDE = 11
 
 
 def _witness(cfg, case_id):
@@ -817,7 +832,7 @@ def drv_concurrent_sampling(tier, seed):
   old = sys.getswitchinterval()
   sys.setswitchinterval(1e-6)
   t0 = time.time()
-  budget = 40.0 if tier == 'quick' else 560.0
+  budget = 36.0 if tier == 'quick' else 560.0
   try:
     for si, (cfg, reps) in enumerate(_scenarios(tier, seed)):
       for rep in range(reps):
